@@ -171,7 +171,13 @@ impl Exp {
                     },
                     BinOp::Mul => match (lhs, rhs) {
                         (Exp::Number(lhs), Exp::Number(rhs)) => Exp::Number(lhs * rhs),
-                        (Exp::Number(0.0), _) | (_, Exp::Number(0.0)) => Exp::Number(0.0),
+                        //a division must stay visible even when multiplied by zero, its
+                        //divisor might be zero or a variable
+                        (Exp::Number(0.0), other) | (other, Exp::Number(0.0))
+                            if !other.contains_division() =>
+                        {
+                            Exp::Number(0.0)
+                        }
                         (Exp::Number(1.0), rhs) => rhs,
                         (lhs, Exp::Number(1.0)) => lhs,
                         (lhs, rhs) => Exp::BinOp(BinOp::Mul, lhs.to_box(), rhs.to_box()),
@@ -308,6 +314,23 @@ impl Exp {
                 }
             }
             exp => exp.clone(),
+        }
+    }
+
+    /// Whether a division appears anywhere in the expression.
+    fn contains_division(&self) -> bool {
+        match self {
+            Exp::Number(_) | Exp::Variable(_) => false,
+            Exp::BinOp(op, lhs, rhs) => {
+                *op == BinOp::Div || lhs.contains_division() || rhs.contains_division()
+            }
+            Exp::UnOp(_, exp) | Exp::Abs(exp) | Exp::Not(exp) => exp.contains_division(),
+            Exp::And(exps) | Exp::Or(exps) | Exp::Min(exps) | Exp::Max(exps) => {
+                exps.iter().any(|exp| exp.contains_division())
+            }
+            Exp::Xor(lhs, rhs) | Exp::Implies(lhs, rhs) | Exp::Iff(lhs, rhs) => {
+                lhs.contains_division() || rhs.contains_division()
+            }
         }
     }
 
